@@ -95,7 +95,8 @@ def handleC55 (c : Case) : Verdict :=
       else if snapshot && sortPaths m.2.included != sortPaths snaps then .differ "snapshot-paths" s!"model={sortPaths m.2.included} impl={sortPaths snaps}"
       else if sortPaths m.2.errors != sortPaths errs then .differ "reported-items" s!"model={sortPaths m.2.errors} impl={sortPaths errs}"
       else
-        let labels := (faultLabels t).eraseDups ++ [s!"exit{exit}", c.stream, "target-" ++ ((c.find "target").map fun r => r.getD 1 "abs").getD "abs"] ++ (if (faultLabels t).isEmpty then ["no-fault"] else [])
+        let labels := (if (c.findAll "parent").size > 0 then ["with-parent-snapshot"] else []) ++
+          (if (c.findAll "duptarget").size > 0 then ["duplicate-target"] else []) ++ (faultLabels t).eraseDups ++ [s!"exit{exit}", c.stream, "target-" ++ ((c.find "target").map fun r => r.getD 1 "abs").getD "abs"] ++ (if (faultLabels t).isEmpty then ["no-fault"] else [])
         .agree (!m.2.errors.isEmpty || !(faultLabels t).isEmpty) labels
   | _ => .differ "protocol" "tree-not-rebuilt"
 
